@@ -492,6 +492,7 @@ def report(prop, tier, seed, results, w, gen_wall, t0):
             for a in con.assumes:
                 assumptions.append("%s: %s" % (con.qualname, a))
             assumptions.append("%s: proved for the type cases %s only" % (con.qualname, ", ".join(r.get("cases", []))))
+    bounded = sorted(set(a for a in assumptions if "BOUNDED" in a))
     assumptions += ["ASSUMED CONTRACT (callee contract used but its body not verified): " + t for t in sorted(trusted_contracts)]
     assumptions += ["extraction drops: " + d for d in extract.DROPPED]
     ev = {
@@ -506,6 +507,7 @@ def report(prop, tier, seed, results, w, gen_wall, t0):
             "samples": samples,
             "explanation": EXPLAIN.get(prop, ""),
             "known_findings_reported": known_lines,
+            "bounded": bounded,
         },
         "assumptions": assumptions,
         "wall_s": round(wall, 2),
